@@ -4,4 +4,5 @@ CHECK_DEADLOCK FALSE
 CONSTANTS
   MaxLen = 4
   Classes = {"absent", "empty", "repeated", "other_only", "bad_utf8", "plus", "nul", "newline", "long", "markup",
-             "markup_valid", "valid", "near_valid", "foreign_digits", "semicolon", "encoded_amp", "unicode"}
+             "markup_valid", "valid", "near_valid", "foreign_digits", "semicolon", "encoded_amp", "unicode",
+             "many_fields", "many_separators", "many_numbers"}
